@@ -19,7 +19,10 @@ from qce_circuit.structure.intrf_registry import (
     IRegistry,
     IRegistryGetter,
 )
-from qce_circuit.structure.intrf_circuit_operation import ICircuitOperation
+from qce_circuit.structure.intrf_circuit_operation import (
+    ICircuitOperation,
+    invalidate_start_time_cache,
+)
 
 
 TRegistryKey = str
@@ -100,9 +103,11 @@ def temporary_override_get_registry_at(temp_registry: Dict[GlobalRegistryKey, fl
 
     try:
         GlobalDurationRegistry.get_registry_at = temp_get_registry_at
+        invalidate_start_time_cache()
         yield
     finally:
         GlobalDurationRegistry.get_registry_at = original_method
+        invalidate_start_time_cache()
 
 
 class DurationRegistry(IRegistry[TRegistryKey, float]):
@@ -128,6 +133,7 @@ class DurationRegistry(IRegistry[TRegistryKey, float]):
         :param value: The duration value to be associated with the key.
         """
         self._variable_durations[key] = value
+        invalidate_start_time_cache()
 
     def get_registry_at(self, key: TRegistryKey) -> float:
         """
